@@ -81,7 +81,10 @@ func structuralLabel(ref *refjson.Ref) string {
 
 func c07Check(c docCase) fw.Outcome {
 	v, ref, why := refjson.Classify(c.Text)
-	obj, err := geojson.Parse(c.Text, c.opts())
+	obj, err, changed := parseWatched(c.Text, c.opts())
+	if changed != "" {
+		return fw.Failf("options-untouched", "%s", changed)
+	}
 	if (obj == nil) == (err == nil) {
 		return fw.Failf("totality", "Parse returned (%v, %v): exactly one of object / error expected; text %q", obj, err, c.Text)
 	}
